@@ -5,6 +5,7 @@
    content, and the default whenever the data-flow does not know).  `path` is any chain of call edges. *)
 From Coq Require Import NArith List Bool String.
 From DS Require Import Model.C17_Effects Model.C17_Names Proofs.C17_Reach Gen.C17_EffectGraph Proofs.C17_Gen.
+From DS Require Import Model.C17_Regex Proofs.C17_RegexSound Gen.C17_SymopRegex Proofs.C17_GenRegex.
 Import ListNotations.
 
 (* no function that any chain of calls from a parse entry point can reach hands text-derived data to
@@ -59,6 +60,26 @@ Theorem C17_write_paths_no_code_sink :
   /\ closed gen_graph (reach gen_graph gen_write_entries) = true
   /\ covers (reach gen_graph gen_write_entries) gen_write_entries = true.
 Proof. exact gen_write_no_code_sink. Qed.
+
+(* numeric fields of CIF symmetry operators.  The translator checks that getSymOp changes the translation vector only
+   through _parseSymOpTranslation(tpart), that the reader raises ValueError unless `_rx_symop_translation.match(tpart)`
+   (pattern ending in \Z) and converts only float(<group>) of `_rx_symop_term.findall(tpart)`; the two patterns are
+   regenerated as data (gen_rx_translation, gen_rx_term; ASCII model).
+   For ALL strings: whatever the patterns accept consists of the characters 0-9 . / + - e E only
+   (an unescaped `.` or any wider class breaks this) *)
+Theorem C17_symop_translation_numeric_only : forall s, rmatch gen_rx_translation s = true -> forallb num_char s = true.
+Proof. exact gen_translation_numeric. Qed.
+Print Assumptions C17_symop_translation_numeric_only.
+
+Theorem C17_symop_term_numeric_only : forall s, rmatch gen_rx_term s = true -> forallb num_char s = true.
+Proof. exact gen_term_numeric. Qed.
+
+(* bounded: on every string of length <= 6 over the probe alphabet (two digits . / + - e E and three non-numeric
+   characters) the pattern accepts exactly the sums of signed numbers / fractions of the reference recogniser *)
+Theorem C17_symop_translation_is_number_sum_bounded : forall s, (List.length s <= 6)%nat ->
+  (forall c, In c s -> In c probe_alphabet) -> rmatch gen_rx_translation s = is_number_sum s.
+Proof. exact gen_translation_is_number_sum_bounded. Qed.
+Print Assumptions C17_symop_translation_is_number_sum_bounded.
 
 (* the shape of the defect of the pinned tree (eval of operator text in getSymOp) is what the check rejects *)
 Theorem C17_eval_of_text_refuted :
